@@ -942,6 +942,44 @@ func ruleE12(c *Ctx) []Ob {
 		sitePos = c.InstrPos(parseSite)
 	}
 	s.check(anon && exported, "skip-anonymous-unexported", sitePos, "embedded and unexported fields are ignored", fmt.Sprintf("a struct field reaches ParseType without both tests `!sf.Anonymous` (%v) and `sf.PkgPath == \"\"` (%v): embedded or unexported fields would become schema fields", anon, exported))
+	// the annotation text is read by the tokenizer only: any other function that looks at its bytes directly (def[i], def[a:b])
+	// must deal with white space itself, otherwise two spellings of the same annotation are told apart
+	for _, fn := range c.ModuleFuncs(pkgDefs) {
+		var strPrm, curPrm *ssa.Parameter
+		for _, prm := range fn.Params {
+			if prm.Type().String() == "string" && strPrm == nil {
+				strPrm = prm
+			}
+			if prm.Type().String() == "*int" {
+				curPrm = prm
+			}
+		}
+		if strPrm == nil || curPrm == nil {
+			continue
+		}
+		indexes, spaces := "", false
+		for _, b := range fn.Blocks {
+			for _, ins := range b.Instrs {
+				switch x := ins.(type) {
+				case *ssa.Lookup:
+					if x.X == ssa.Value(strPrm) {
+						indexes = c.InstrPos(x)
+					}
+				case *ssa.Index:
+					if x.X == ssa.Value(strPrm) {
+						indexes = c.InstrPos(x)
+					}
+				case *ssa.Call:
+					if f := x.Call.StaticCallee(); f != nil && fnPkgPath(f) == "unicode" && f.Name() == "IsSpace" {
+						spaces = true
+					}
+				}
+			}
+		}
+		if indexes != "" {
+			s.check(spaces, "annotation-bytes:"+fn.Name(), indexes, "the function that reads annotation bytes skips white space itself (tokenizer)", fn.Name()+" looks at bytes of the annotation directly without handling white space: the tokenizer skips spaces, a byte peek does not, so `Name >` and `Name>` are treated differently")
+		}
+	}
 	// the schema is made of the struct's own fields: promoted fields of embedded structs (reflect.VisibleFields) are not part of it
 	var vis []string
 	for _, fn := range c.ModuleFuncs(pkgDefs, pkgReflect) {
@@ -1030,6 +1068,56 @@ func ruleE12(c *Ctx) []Ob {
 		tset, _ := c.constOf(pkgDefs, "T_set")
 		tlist, _ := c.constOf(pkgDefs, "T_list")
 		s.check(got["set"] == tset && got["list"] == tlist && tset != 0, "set-list-tokens", c.Pos(fn.Pos()), `"set" -> T_set, "list" -> T_list`, fmt.Sprintf("set/list tokens map to %v (T_set=%d, T_list=%d)", got, tset, tlist))
+	}
+	// binary is exactly []byte: wherever the tag becomes T_binary the element type was compared for identity with the type of byte
+	{
+		tbin, _ := c.constOf(pkgDefs, "T_binary")
+		n, okAll := 0, true
+		where := "-"
+		for _, fn := range c.ModuleFuncs(pkgDefs) {
+			for _, b := range fn.Blocks {
+				for _, ins := range b.Instrs {
+					phi, ok := ins.(*ssa.Phi)
+					if !ok || namedOf(phi.Type()) != "Tag" {
+						continue
+					}
+					for i, e := range phi.Edges {
+						cv, ok := e.(*ssa.Const)
+						if !ok {
+							continue
+						}
+						if v, ok := constInt(cv); !ok || v != tbin {
+							continue
+						}
+						n++
+						p := b.Preds[i]
+						cs := domConds(p)
+						if iff, ok := p.Instrs[len(p.Instrs)-1].(*ssa.If); ok && p.Succs[0] != p.Succs[1] {
+							cs = append(cs, expandCond(Cond{V: iff.Cond, Truth: p.Succs[0] == b, If: iff}, 0)...)
+						}
+						ident := false
+						for _, cd := range cs {
+							bo, ok := cd.V.(*ssa.BinOp)
+							if !ok || (bo.Op == token.EQL) != cd.Truth || bo.Op != token.EQL && bo.Op != token.NEQ {
+								continue
+							}
+							for _, side := range []ssa.Value{bo.X, bo.Y} {
+								if u, ok := side.(*ssa.UnOp); ok && u.Op == token.MUL {
+									if g, ok := u.X.(*ssa.Global); ok && g.Name() == "bytetype" {
+										ident = true
+									}
+								}
+							}
+						}
+						if !ident {
+							okAll = false
+							where = c.Pos(firstPos(p))
+						}
+					}
+				}
+			}
+		}
+		s.check(okAll && n > 0, "binary-is-byte-slice", where, "a slice becomes binary only when its element type is identical to byte", "a slice is classified as binary without comparing its element type with the type of byte for identity (e.g. by Kind() == Uint8): slices of user-defined uint8 types, which the codec cannot express, would be accepted as binary")
 	}
 	// enum upgrade inside the name-match chain: wherever the tag becomes the constant T_enum, the dominating conditions
 	// include tag == T_i64, vt != i64type and a failed keyword match (strings.Contains(...) false)
